@@ -206,6 +206,7 @@ pub fn run(tier: Tier) -> i32 {
     let ctx = Ctx::new("C02", tier);
     let (k, kcore) = tier.pick((3usize, 5usize), (4, 6));
     let rmax = tier.pick(300usize, 1200usize);
+    let rmax3 = tier.pick(16usize, 40usize);
     let mut total = Acc::new();
     let mut sizes = vec![];
     for l in langs::ALL {
@@ -227,8 +228,21 @@ pub fn run(tier: Tier) -> i32 {
                 one_text(&ctx, acc, l, &lang, &text, has_num);
             }
         }));
-        let words: Vec<String> = vocab::sigma_cls(l).into_iter().take(tier.pick(14, 16)).collect();
+        // three-atom patterns (multi-token occurrences) repeated up to 40 times: more than a dozen occurrences in one text
+        let c8: Vec<String> = cnames.iter().take(8).cloned().collect();
+        total.merge(explore::all_repetitions(&c8, 3, 2..=rmax3, |syms, acc| {
+            if syms.len() % 3 == 0 && !(syms[0] == syms[1] && syms[1] == syms[2]) {
+                let text = syms.concat();
+                let has_num = syms.iter().any(|s| core.iter().any(|(w, f)| w == s && *f));
+                one_text(&ctx, acc, l, &lang, &text, has_num);
+            }
+        }));
+        let mut words: Vec<String> = vocab::sigma_cls(l).into_iter().take(tier.pick(14, 16)).collect();
+        // an empty token (a decoder's silence)
+        words.push(String::new());
         total.merge(explore::all_sequences2(&words, tier.pick(4, 5), |syms, acc| one_stream(&ctx, acc, l, &lang, syms)));
+        // long word-only streams: patterns of <= 3 words repeated up to 40 times
+        total.merge(explore::all_repetitions(&words, 3, 2..=rmax3, |syms, acc| one_stream(&ctx, acc, l, &lang, syms)));
         // long texts: every pattern of <= 2 core atoms repeated r times, every r up to the bound
         total.merge(explore::all_repetitions(&cnames, 2, 2..=rmax, |syms, acc| {
             let text = syms.concat();
@@ -240,7 +254,7 @@ pub fn run(tier: Tier) -> i32 {
     let cov = json!({
         "exhaustive": true,
         "rule": "every concatenation (no implicit spaces) of <= k atoms: number words, ordinary/linking/ambiguous words, ASCII and Unicode whitespace, punctuation, multi-byte and combining characters, emoji, CJK, non-ASCII digits; thresholds 0 and 10; four clauses (tokens concatenate back; output = independent splice of reported occurrences; no number atom => identical; stream replacement hands each token exactly once, in order — on the tokens of the text and on word-only streams of <= k class words, where occurrences can be adjacent); non-trivial = texts with at least one occurrence",
-        "bounds": {"depth_all_atoms": k, "depth_core_atoms": kcore, "long_texts": {"pattern_depth": 2, "repetitions_up_to": rmax}},
+        "bounds": {"depth_all_atoms": k, "depth_core_atoms": kcore, "long_texts": {"pattern_depth": 2, "repetitions_up_to": rmax}, "three_atom_patterns_and_word_stream_patterns_repeated_up_to": rmax3},
         "alphabets": sizes,
     });
     ctx.finish(total, cov, vec!["the segmentation itself is not prescribed, only that tokens concatenate back to the text".into()])
